@@ -163,6 +163,78 @@ pub fn cases(quick: bool) -> Vec<Snip> {
             }));
         }
     }
+    // characters above 127 (CHR$(200), CHR$(201)): one character each for every function. The strings are
+    // built at run time and only lengths, positions and comparisons are printed.
+    {
+        let alphabet: [Option<i64>; 3] = [None, Some(200), Some(201)]; // None = the letter a
+        let mut words: Vec<Vec<Option<i64>>> = vec![vec![]];
+        let mut prev: Vec<Vec<Option<i64>>> = vec![vec![]];
+        for _ in 0..(if quick { 3 } else { 4 }) {
+            let mut next = vec![];
+            for p in &prev {
+                for c in alphabet {
+                    let mut w = p.clone();
+                    w.push(c);
+                    next.push(w);
+                }
+            }
+            words.extend(next.iter().cloned());
+            prev = next;
+        }
+        let build = |w: &[Option<i64>]| -> Expr {
+            let mut e: Option<Expr> = None;
+            for c in w {
+                let piece = match c {
+                    None => st("a"),
+                    Some(k) => builtin("CHR$", vec![num(*k)]),
+                };
+                e = Some(match e {
+                    None => piece,
+                    Some(x) => bin(BinOp::Add, x, piece),
+                });
+            }
+            e.unwrap_or(st(""))
+        };
+        let show = |w: &[Option<i64>]| -> String { w.iter().map(|c| match c { None => "a".to_string(), Some(k) => format!("<{}>", k) }).collect() };
+        for w in words.iter().filter(|w| w.iter().any(|c| c.is_some())) {
+            let wv = w.clone();
+            out.push(snip(format!("high characters {}", show(w)), move |b| {
+                let mut stmts = vec![b.assign(var("S$"), build(&wv))];
+                let s = || var("S$");
+                let n = wv.len() as i64;
+                let mut items = vec![builtin("LEN", vec![s()])];
+                for k in 0..=n + 1 {
+                    // lengths of the parts, where the part is found again, and the defining equation
+                    items.push(builtin("LEN", vec![builtin("LEFT$", vec![s(), num(k)])]));
+                    items.push(builtin("LEN", vec![builtin("RIGHT$", vec![s(), num(k)])]));
+                    if k >= 1 {
+                        items.push(builtin("LEN", vec![builtin("MID$", vec![s(), num(k)])]));
+                        items.push(builtin("LEN", vec![builtin("MID$", vec![s(), num(k), num(1)])]));
+                        if k <= n {
+                            // (a non-empty needle)
+                            items.push(builtin("INSTR", vec![s(), builtin("MID$", vec![s(), num(k), num(2)])]));
+                        }
+                        items.push(builtin("INSTR", vec![num(k), s(), builtin("RIGHT$", vec![s(), num(1)])]));
+                    }
+                    items.push(bin(BinOp::Eq, bin(BinOp::Add, builtin("LEFT$", vec![s(), num(k)]), builtin("MID$", vec![s(), num(k + 1)])), s()));
+                }
+                items.push(builtin("INSTR", vec![s(), st("a")]));
+                items.push(builtin("INSTR", vec![s(), builtin("CHR$", vec![num(201)])]));
+                items.push(builtin("LEN", vec![builtin("UCASE$", vec![s()])]));
+                items.push(builtin("LEN", vec![builtin("LTRIM$", vec![bin(BinOp::Add, st(" "), s())])]));
+                items.push(builtin("LEN", vec![bin(BinOp::Add, s(), s())]));
+                stmts.push(b.print(items));
+                stmts
+            }));
+        }
+        out.push(snip("STRING$ / LEN with a high character".into(), |b| {
+            vec![b.print(vec![
+                builtin("LEN", vec![builtin("STRING$", vec![num(3), num(200)])]),
+                builtin("LEN", vec![builtin("STRING$", vec![num(2), builtin("CHR$", vec![num(200)])])]),
+                bin(BinOp::Eq, builtin("STRING$", vec![num(2), num(200)]), bin(BinOp::Add, builtin("CHR$", vec![num(200)]), builtin("CHR$", vec![num(200)]))),
+            ])]
+        }));
+    }
     // VAL(STR$(k)) = k
     let ks: Vec<i64> = if quick {
         (-32768i64..=32767).filter(|k: &i64| k % 13 == 0 || k.abs() >= 32760 || k.abs() <= 20).collect()
